@@ -347,7 +347,7 @@ def sp_descriptor(e):
     for i, svc in enumerate(e.get('attribute_consuming', [])):
         reqs = ''.join('<md:RequestedAttribute%s>%s</md:RequestedAttribute>' % (
             _attrs([('Name', r['name']), ('NameFormat', r.get('name_format')), ('FriendlyName', r.get('friendly_name')),
-                    ('isRequired', None if r.get('required') is None else ('true' if r['required'] else 'false'))]),
+                    ('isRequired', r['required_spelling'] if r.get('required_spelling') is not None else (None if r.get('required') is None else ('true' if r['required'] else 'false')))]),
             ''.join('<saml:AttributeValue xmlns:saml="%s">%s</saml:AttributeValue>' % (SAML, _esc(v)) for v in r.get('values', []))) for r in svc['requested'])
         acs_services += '<md:AttributeConsumingService index="%d"%s><md:ServiceName xml:lang="en">svc%d</md:ServiceName>%s</md:AttributeConsumingService>' % (
             svc.get('index', i), _attrs([('isDefault', None if svc.get('default') is None else ('true' if svc['default'] else 'false'))]), i, reqs)
